@@ -12,11 +12,13 @@ as hypothesis, so that what the harness checks on a real operator is — verbati
   nothing is left (`reduceTop_sound_decided`);
 * `transpose_is_adjoint_closed` — fully decided (`validTb`), the hypothesis on the environment of the uninterpreted
   leaves apart;
-* kernel-evaluated examples on the expressions of `ListSem.Examples` / `ListSem.AdjExamples`.
+* kernel-evaluated examples on the expressions of `ListSem.Examples` / `ListSem.AdjExamples`, and on an expression
+  with a dense einsum leaf (`C14.Examples.exDense`).
 -/
 import FuraxProofs.Sem.ValidDecide
 import FuraxProofs.Props.C07Side
 import FuraxProofs.Props.C08Closed
+import FuraxProofs.Props.C14Closed
 namespace Furax
 namespace Valid
 open Op ListSem
@@ -151,7 +153,83 @@ theorem exInv_den (E : Env) (x : List ℝ) (hx : x.length = 3) : den E (mkIdenti
 example : promises (.wrap 7 .diagInv (.leaf 5 .diagonal diagP)) = [.leaf 5 .diagonal diagP] := by
   with_unfolding_all rfl
 
+/-! #### an expression with a dense einsum leaf (`C14.Examples.exDense`: `Dense(p1) ∘ (2·Id)`, subscripts
+`'ij...,j...->i...'`, ONE block array `(2, 3)`, a leaf `(3, 2)`)
+
+`Einsum.parseSubscripts` is `String.splitOn`, which the Lean kernel does not unfold: the split of the subscripts is
+supplied by `ListSem.parseSubscripts_readback` (`C14.Examples.parse1`), everything else is evaluated by the kernel.
+The compiled driver just runs `validb`. -/
+
+open C14.Examples in
+/-- the dense leaf passes the leaf check -/
+theorem p1_leafOKb : leafOKb .dense p1 = true := by
+  rw [leafOKb_dense_eq_terms p1 _ _ _ parse1]
+  decide +kernel
+
+open C14.Examples in
+/-- `denseOK` itself, decided (`ListSem.denseCheck_iff`) -/
+example : denseOK p1 := (denseCheck_iff p1).mp (by rw [denseCheck_eq_terms p1 _ _ _ parse1]; decide +kernel)
+
+open C14.Examples in
+example : ¬ denseOK pBad := fun h => absurd ((denseCheck_iff pBad).mpr h)
+  (by rw [denseCheck_eq_terms pBad _ _ _ parseBad]; decide +kernel)
+
+open C14.Examples in
+theorem exDense_validb : validb exDense = true := by
+  simp only [validb, exDense, validWith, validWithList, p1_leafOKb]
+  decide +kernel
+
+open C14.Examples in
+theorem exDense_validTb : validTb exDense = true := by
+  simp only [validTb, exDense, validWith, validWithList, adjLeafOKb_eq, p1_leafOKb]
+  decide +kernel
+
+open C14.Examples in
+example : noPromiseb exDense = true := by decide +kernel
+
+open C14.Examples in
+/-- the hypotheses of the two closed theorems, from the check -/
+example (E : Env) : WTExpr (listArithSem E).invertible listLeafOK exDense :=
+  wt_of_validb_noPromise E exDense exDense_validb (by decide +kernel)
+
+open C14.Examples in
+example : ValidT exDense ∧ exDense.WFT := (validTb_iff exDense).mp exDense_validTb
+
+open C14.Examples in
+/-- **C03 on an expression with a dense leaf, hypothesis = the executable check** -/
+theorem exDense_adjoint (E : Env) (hE : EnvAdj E) (x y : List ℝ) (hx : x.length = 6) (hy : y.length = 4) :
+    dot (den E exDense x) y = dot x (den E exDenseT y) :=
+  transpose_is_adjoint_closed E hE exDense exDenseT exDense_validTb exDense_T x y hx hy
+
+open C14.Examples in
+/-- the same leaf with one block array PER leaf (`vals` empty: interpreted by the environment) is not constrained by
+`validb`, and refused by `validTb` (`transposeOp` builds a new leaf the environment does not know) -/
+example : validb (.leaf 2 .dense { p1 with vals := ⟨[], []⟩ }) = true ∧
+    validTb (.leaf 2 .dense { p1 with vals := ⟨[], []⟩ }) = false := by
+  have h : leafOKb .dense { p1 with vals := ⟨[], []⟩ } = true := by
+    rw [leafOKb_dense_eq_terms _ _ _ _ parse1]
+    decide +kernel
+  simp only [validb, validTb, validWith, adjLeafOKb_eq, h]
+  decide +kernel
+
 /-! #### expressions OUTSIDE the domain, with the reason -/
+
+open C14.Examples in
+/-- a dense leaf whose blocks are broadcast against the input (`C14.Examples.pBad`: `'ij,j->i'`, blocks `(2, 1)`, a
+leaf `(3,)`; `mv` is accepted, `.T.mv` raises): refused, with the reason -/
+example : leafOKb .dense pBad = false ∧
+    leafReason .dense pBad = some "dense:blocks-or-leaves-do-not-fit-subscripts-exactly" := by
+  rw [leafOKb_dense_eq_terms pBad _ _ _ parseBad, leafReason_dense_eq_terms pBad _ _ _ parseBad]
+  decide +kernel
+
+open C14.Examples in
+/-- … and it really is outside the domain of the theorems (completeness of the dense check) -/
+example (inv : Op → Prop) : ¬ WTExpr inv listLeafOK (.leaf 1 .dense pBad) := by
+  intro h
+  have := validb_complete inv _ h
+  simp only [validb, validWith, leafOKb_dense_eq_terms pBad _ _ _ parseBad] at this
+  revert this
+  decide +kernel
 
 /-- a rotation whose angles do not broadcast into the Stokes components -/
 def badRot : Op := .leaf 1 .qurot { rotP with vals := ⟨[2], [0, 1]⟩ }
@@ -183,6 +261,9 @@ end Examples
 #print axioms Examples.ex2_den
 #print axioms Examples.exOp_adjoint
 #print axioms Examples.exInv_den
+#print axioms Examples.exDense_validb
+#print axioms Examples.exDense_validTb
+#print axioms Examples.exDense_adjoint
 
 end Valid
 end Furax
